@@ -49,7 +49,7 @@ Definition drop_while (w : N -> bool) : str -> str :=
 Definition drop_nl (l : str) : str := match l with 10 :: r => r | _ => l end.
 Definition html_text (fr : frame) (owner : N) (val : str) (trimL trimR after before : bool) : str :=
   let entry := last (f_chain fr) (Tpl 0 [] true [] [] [] None false false) in
-  let mine := tpl_id entry =? owner in
+  let mine := existsb (fun t => tpl_id t =? owner) (f_chain fr) in
   let v1 := if mine && tpl_lstrip entry && before
             then rev (drop_while (fun b => (b =? 9) || (b =? 32)) (rev val)) else val in
   let v2 := if mine && tpl_trim entry && after then drop_nl v1 else v1 in
